@@ -355,12 +355,12 @@ func (c *c19Ctx) shrinkScenario(s *Scenario, class string) (*Scenario, int) {
 	if cur.Enc != "ascii" {
 		try(func(x *Scenario) { x.RawSrc = "" })
 	}
-	// statement removal (ddmin, one at a time from the end for small programs)
+	// statement removal (ddmin; the candidates of one round run in parallel, each in its own world)
 	if cur.RawSrc == "" {
 		n := 2
-		for len(cur.Body) >= 2 && runs < 120 {
+		for len(cur.Body) >= 2 && runs < 240 {
 			chunk := (len(cur.Body) + n - 1) / n
-			reduced := false
+			var cands []Scenario
 			for st := 0; st < len(cur.Body); st += chunk {
 				e := st + chunk
 				if e > len(cur.Body) {
@@ -375,8 +375,18 @@ func (c *c19Ctx) shrinkScenario(s *Scenario, class string) (*Scenario, int) {
 						cand.Fault = &Fault{Kind: "fsize", K: len(img) / 2}
 					}
 				}
-				if still(&cand) {
-					cur = cand
+				cands = append(cands, cand)
+			}
+			ok := make([]bool, len(cands))
+			parallelDo(len(cands), 16, func(i int) {
+				_, v, err := c.execute(&cands[i], false)
+				ok[i] = err == nil && v != nil && v.Class == class
+			})
+			runs += len(cands)
+			reduced := false
+			for i := range cands {
+				if ok[i] {
+					cur = cands[i]
 					reduced = true
 					break
 				}
